@@ -168,6 +168,18 @@ theorem invocation_runs_defers (n : Nat) (id : Nat) (c : Closure) (args : List R
     simp only [hne, Bool.false_eq_true, if_false]
     split <;> rfl
 
+/-- A call never touches the CALLER's pending deferred calls: whatever the callee is (script function, Go
+function, not a function), whatever it registers, runs and fails with, and however deep it recurses into
+itself, the caller gets back exactly the list it had - each invocation works on a list of its own. -/
+theorem call_leaves_callers_defers (fuel : Nat) (f : Val) (args : List RV) (cs : Bool) (s : St) :
+    (callFn fuel f args cs s).defers = s.defers := by
+  cases fuel with
+  | zero => simp [callFn, outOfFuel, St.markUnsup]
+  | succ n =>
+    cases f <;> simp only [callFn]
+    all_goals repeat' split
+    all_goals first | rfl | simp [St.markUnsup, St.fail]
+
 /-- The top level behaves like an invocation: RunContext runs the pending top-level defers. -/
 theorem program_runs_defers (fuel : Nat) (p : Stmt) (s : St) (hd : (execStmt fuel p s).defers ≠ []) :
     (runProgram fuel p s).trace =
